@@ -136,9 +136,11 @@ var plans = map[string]*Plan{
 		Assumptions: rengAssume,
 		Floor:       map[string]int64{"revision_samples": 300, "concurrent_runs": 5},
 		Jobs: func(tier string) []Job {
-			js := jobs("reng", 12, tierN(tier, 8, 130), "", time.Duration(tierN(tier, 10, 80))*time.Minute)
+			js := jobs("reng", 11, tierN(tier, 8, 130), "", time.Duration(tierN(tier, 10, 80))*time.Minute)
 			// crash points of the write path (E6): the counter after process death at any syscall boundary
-			return append(js, jobs("crashpt", 4, tierN(tier, 1, 6), "tier="+tier, time.Duration(tierN(tier, 10, 80))*time.Minute)...)
+			js = append(js, jobs("crashpt", 3, tierN(tier, 1, 6), "tier="+tier, time.Duration(tierN(tier, 10, 80))*time.Minute)...)
+			// real processes (E5): a replica stalling for 1.5x the rpc deadline, rebuilds; all RW replicas report the same count
+			return append(js, jobs("cluster", tierN(tier, 2, 6), tierN(tier, 1, 3), "bin={BIN},cycles=2", time.Duration(tierN(tier, 20, 150))*time.Minute)...)
 		},
 		CrashSig: rengCrash("C10"),
 		RaceJobs: func() []Job { return jobs("reng", 2, 12, "", 60*time.Minute) },
